@@ -65,6 +65,7 @@ def check(repo, tier="quick"):
     res.rule("C25.e", "every exception the creation of a picture file may raise for a user-chosen name is translated, beneath the generic handler, into an error run() handles with its own status (never the internal-error status, never silently dropped)")
     res.rule("C25.g", "history independence of picture output: the command, file_format and the dimension/depth computation keep no state between pictures")
     res.rule("C25.h", "the command's own arithmetic and naming are total: every division in the command has a divisor that cannot be zero (a non-zero literal, `x or K`, `max(K, x)`) -- the file size of an empty input is 0 and the status line is drawn before the stream is parsed; the .json/.raw names are both formed from os.path.splitext(name)[0], which strips an extension from the last path component only")
+    res.rule("C25.i", "contents of the written files: the sample, metadata and file-pair rules of the raw picture format (C23.a, C23.b, C23.c) re-evaluated -- exact-integer conversion at any depth, every byte of every sample written, metadata keys complete")
     res.rule("C25.f", "main() returns run()'s status, which the entry point passes to sys.exit; output pattern is validated before use")
 
     m, cls = repo.cls(SCRIPT + ":BitstreamValidator")
@@ -227,7 +228,22 @@ def check(repo, tier="quick"):
     from .. import intlimit
 
     intlimit.rule(repo, res, "C25.h")
-    res.floor("C25.h", 5)
+    from .. import lints as _lints
+
+    _lints.rule(repo, res, "C25.h", ["scripts.vc2_bitstream_validator", "file_format", "dimensions_and_depths", "string_utils"])
+    res.floor("C25.h", 9)
+    # what the callback hands to file_format.write is written faithfully: the writer-side rules of C23 re-evaluated
+    from . import c23 as _c23
+    from ..report import Ob as _Ob
+
+    _sub = Result("C23")
+    _fm = repo.mod("file_format")
+    _c23.rule_a(repo, _sub, _fm)
+    _c23.rule_b(repo, _sub, _fm)
+    _c23.rule_c(repo, _sub, _fm)
+    for _o in _sub.obs:
+        res._add(_Ob("C25.i", "%s/%s" % (_o.rule, _o.key), _o.where, _o.status, _o.detail, _o.by, _o.path))
+    res.floor("C25.i", 10)
     from .. import globals_state
 
     globals_state.rule(repo, res, "C25.g", ["scripts.vc2_bitstream_validator", "file_format", "dimensions_and_depths", "py2x_compat", "string_utils"], what="the files written for one picture (a later picture of another format would be written with an earlier one's parameters)")
